@@ -448,6 +448,13 @@ def cell_var_schema(cellvars):
     """{'n': {'default':..,'divider':..,'updater':..}} -> ports sub-schema."""
     sch = {}
     for v, a in cellvars.items():
+        if a.get('branch'):
+            # a branch of variables with a divider declared on the branch itself
+            s = {'_divider': a['divider']}
+            for kk, dv in a['default'].items():
+                s[kk] = {'_default': dv, '_emit': True}
+            sch[v] = s
+            continue
         s = {'_default': decode_value(copy.deepcopy(a['default'])), '_emit': True}
         if a.get('updater'):
             s['_updater'] = a['updater']
